@@ -27,7 +27,7 @@ def run(ctx):
     rc = ctx.tlc("RateLimit", "RateLimit_mc_candidate.cfg", allow_violation=True, timeout=900, count=False)
     ctx.extra["model_candidate_ImplMatchesChoose"] = ("violated on the transcription (see DeviationOnlyViaCache)"
                                                       if rc.safety_violation else "holds on the transcription")
-    _, behs = ctx.tlc_simulate("RateLimit", "RateLimit_sim.cfg", num=80 if quick else 800, depth=31)
+    _, behs = ctx.tlc_simulate("RateLimit", "RateLimit_sim.cfg", num=80 if quick else 500, depth=31)
     for b in behs:
         hists.append(b[-1])      # step of the last state = the whole walk
     ctx.rule = ("every history of %d actions of %s (%d) + %d -simulate walks of RateLimit_sim.cfg (30 actions, 3 addresses, "
